@@ -1230,3 +1230,16 @@ def m_fn_call(ex, st, c):
     args = list(tup.items) if isinstance(tup, Tup) else []
     if not isinstance(f, (Closure, FnItem)): raise Unsupported('call of %r' % (f,))
     return CallFn(f, args, lambda e_, s_, r: r)
+
+
+@model(r'^(Option|Result)(::<.*>)?::(as_mut|as_deref_mut)$')
+def m_as_mut(ex, st, c):
+    r = c.args[0]
+    v = D(ex, st, r)
+    if not isinstance(v, Enum): raise Unsupported('as_mut on %r' % (v,))
+    if v.variant in ('None',): return NONE
+    if not isinstance(r, MutRef): raise Unsupported('as_mut through %r' % (r,))
+    inner = MutRef(r.fid, r.local, tuple(r.path) + (('dc', v.variant), ('f', 0, None)))
+    if v.variant == 'Some': return Some(inner)
+    if v.variant == 'Ok': return Ok(inner)
+    return Err(inner)
